@@ -1,4 +1,8 @@
 mod c01;
+mod c02;
+mod c04;
+mod c05;
+mod c09;
 mod c11;
 mod c16;
 mod c17;
@@ -50,6 +54,10 @@ fn main() {
         "C11" => c11::run(&mut rng, &mut out, &tier, false, "C11"),
         "C12" => c11::run(&mut rng, &mut out, &tier, true, "C12"),
         "C17" => c17::run(&mut rng, &mut out, &tier),
+        "C09" => c09::run(&mut rng, &mut out, &tier),
+        "C02" => c02::run(&mut rng, &mut out, &tier),
+        "C04" => c04::run(&mut rng, &mut out, &tier),
+        "C05" => c05::run(&mut rng, &mut out, &tier),
         "probe" => probe::run(),
         "C01" => c01::run(&mut rng, &mut out, &tier),
         _ => {
